@@ -473,6 +473,65 @@ def seq_lines(path, seqs):
     return [l.rstrip("\n") for l in open(path) if l.split("\t")[0].split(".")[0] in seqs]
 
 
+def shrink(ctx, f, budget=120):
+    """delta-debugging on the steps of the failing sequence, judged by the direct oracle on the implementation"""
+    lines = f["case"].get("abstract_tsv") or []
+    if len(lines) < 8:
+        return f
+    kind, sig = f["name"].split("-")[0], f.get("signature")
+
+    def groups(ls):
+        kinds = [l.split("\t")[1] for l in ls]
+        starts = []
+        for i, k in enumerate(kinds):
+            if k in ("W", "A"):
+                starts.append(i)
+            elif k in ("C", "L", "K"):
+                j = i
+                while j > 0 and kinds[j - 1] == "O" and i - j < 10:
+                    j -= 1
+                starts.append(j)
+        starts = sorted(set(starts))
+        if not starts:
+            return ls, []
+        gs = [ls[a:b] for a, b in zip(starts, starts[1:] + [len(ls)])]
+        return ls[:starts[0]], gs
+
+    def fails(ls):
+        p = os.path.join(ctx.run_dir, "shrink.tsv")
+        with open(p, "w") as fh:
+            fh.write("\n".join(ls) + "\n")
+        d, err = run_impl(ctx, "shrink", "-replay %s" % p, model=False)
+        if d is None:
+            return None
+        cases, order = parse_cases(os.path.join(d, "cases.tsv"))
+        impl, _ = vlib.read_out(os.path.join(d, "impl.out"))
+        fs, _ = oracle(cases, impl, order)
+        for g in fs:
+            if g["name"].split("-")[0] == kind and g.get("signature") == sig:
+                return g
+        return None
+
+    head, gs = groups(lines)
+    best, n = None, 0
+    changed = True
+    while changed and n < budget:
+        changed = False
+        i = len(gs) - 1
+        while i >= 0 and n < budget:
+            trial = gs[:i] + gs[i + 1:]
+            n += 1
+            g = fails(head + [l for grp in trial for l in grp])
+            if g is not None:
+                gs, best, changed = trial, g, True
+            i -= 1
+    if best is None:
+        return f
+    best["case"]["abstract_tsv"] = head + [l for grp in gs for l in grp]
+    best["case"]["shrunk_from_lines"] = len(lines)
+    return best
+
+
 def run(ctx):
     quick = ctx.tier == "quick"
     ok, out, _ = vlib.go_build("ttlsim")
@@ -521,6 +580,7 @@ def run(ctx):
         absf = os.path.join(d, "abstract.tsv")
         for f in fails:
             f["case"]["abstract_tsv"] = seq_lines(absf, {f["case"]["seq"]})
+            f["name"] = f["name"] + "-" + sub
         for m in mism[:50]:
             all_mism.append((sub + ":" + m[0], m[1], m[2]))
         if len(mism) > 50:
@@ -577,6 +637,8 @@ def run(ctx):
             continue
         seen.add(key)
         uniq.append(f)
+    known = {k.get("signature") for k in vlib.load_known_findings() if k.get("status") == "open" and k.get("property") == "C10"}
+    uniq = [f if (f.get("signature") in known or ctx.replay) else shrink(ctx, f) for f in uniq[:5]] + uniq[5:]
     vlib.standard_verdict(ctx, proofs_ok, all_mism, uniq, search_fn=search,
                           corr_name="Expire/Model.v vs rockredis (value header, generations, compaction filter, local deletion) through node.StateMachine")
     ctx.finish(dict(
